@@ -345,7 +345,11 @@ func (p *ProjectRunner) getDoneOrRunningProcess(name string) *Process {
 
 func (p *ProjectRunner) removeRunningProcess(process *Process) {
 	p.runProcMutex.Lock()
-	delete(p.runningProcesses, process.getName())
+	// only remove our own entry: a newer instance of the process may already
+	// be registered under the same name
+	if current, ok := p.runningProcesses[process.getName()]; ok && current == process {
+		delete(p.runningProcesses, process.getName())
+	}
 	p.runProcMutex.Unlock()
 }
 
